@@ -81,7 +81,7 @@ def partialInsertionSort (lo hi : Nat) : M a0 Bool := do
 def siftDown (lo len node : Nat) : M a0 Unit := do
   let mut node := node
   for _ in [0:len] do
-    let mut child := 2 * node + 1
+    let mut child := PS_heapChild node
     if child ≥ len then break
     if child + 1 < len ∧ lt (← rd (lo + child)) (← rd (lo + child + 1)) then child := child + 1
     if !(lt (← rd (lo + node)) (← rd (lo + child))) then break
@@ -90,10 +90,11 @@ def siftDown (lo len node : Nat) : M a0 Unit := do
 
 def heapsort (lo hi : Nat) : M a0 Unit := do
   let len := hi - lo
-  for k in [0:len / 2] do
-    siftDown lt lo len (len / 2 - 1 - k)
-  for k in [0:len - 1] do
-    let i := len - 1 - k
+  -- the loop ranges are the translated ones (Gen.Boxcar)
+  for k in [0:PS_heapBuildHi len - PS_heapBuildLo len] do
+    siftDown lt lo len (PS_heapBuildHi len - 1 - k)
+  for k in [0:PS_heapPopHi len - PS_heapPopLo len] do
+    let i := PS_heapPopHi len - 1 - k
     swp lo (lo + i)
     siftDown lt lo i 0
 
